@@ -83,38 +83,8 @@ def rules(ctx):
                   "from_nonces must store (hiding, binding) as given and commit to G*hiding, G*binding respectively", f.loc)
     f = ctx.anchor(R1 + "preprocess")
     if f:
-        lr = reductions(ctx, f.key, adaptors={}, min_loops=1)
-        v = FnView.get(P, f)
-        if lr:
-            lp = lr[0]
-            it = lp["iter_term"]
-            good = it is not None and it[0] == "iter" and it[1][0] == "agg" and (it[1][2] or "").endswith("Range") and \
-                dict(it[1][4]).get("start") == ("const", "u8", 0) and dict(it[1][4]).get("end") == ("arg", 1)
-            ctx.check(good, "RED", f.key, "0..num_nonces", "preprocess must iterate exactly 0..num_nonces: %s" % fmt(it), f.loc)
-            names = f.var_names()
-            pushed = {names.get(l) for l, s in lp["skippable"].items() if not s}
-            ctx.check({"signing_nonces", "signing_commitments"} <= pushed, "RED", f.key, "both-vectors-pushed-each-iteration",
-                      "every iteration must push the pair's nonces and commitments (%s)" % pushed, f.loc)
-        if lr:
-            dr = [bb for (bb, t, ci) in f.calls() if ci and (ci.get("name") == "new" and (ci.get("self_adt") or "").endswith("SigningNonces")
-                                                             or ci.get("name") == "fill_bytes")]
-            ctx.check(len(dr) == 1 and dr[0] in lr[0]["body"], "DRAW", f.key, "pair-drawn-inside-the-loop",
-                      "each pre-processed pair must be drawn inside the loop (a batch that draws once and clones reuses "
-                      "nonces)", f.loc)
-        t = v.cx.local(0)
-        good = t[0] == "agg" and t[1] == "tuple"
-        if good:
-            n, c = t[4][0][1], t[4][1][1]
-            pn = [o for o in n[2] if o[1] == "push"] if n[0] == "mut" else []
-            pc = [o for o in c[2] if o[1] == "push"] if c[0] == "mut" else []
-            good = len(pn) == 1 and len(pc) == 1
-            if good:
-                nonces, comm = pn[0][2][0], pc[0][2][0]
-                good = (mentions(nonces, lambda s: s[0] == "op" and s[1] == "fill_bytes" and s[2] == (("arg", 3),))
-                        and mentions(nonces, arg(2)) and get_field(nonces, "commitments") == comm)
-        ctx.check(good, "PROV", f.key, "commitments-of-the-pushed-nonces",
-                  "the commitments pushed in an iteration must be those of the nonces pushed in the same iteration, "
-                  "derived from the caller's rng and share", f.loc)
+        reductions(ctx, f.key, adaptors={}, min_loops=0)
+        preprocess_pairs(ctx, f)
     f = ctx.anchor(R1 + "commit")
     if f:
         v = FnView.get(P, f)
@@ -129,6 +99,30 @@ def rules(ctx):
                     and mentions(n, arg(1)) and get_field(n, "commitments") == c)
         ctx.check(good, "PROV", f.key, "commit==preprocess(1)", "commit must return the single pair of preprocess(1, secret, rng) "
                   "(or one fresh SigningNonces::new(secret, rng) with its own commitments)", f.loc)
+
+
+def preprocess_pairs(ctx, f):
+    """preprocess(n, share, rng) returns two sequences filled in lock-step, one pair per i in 0..n: the pair's nonces are drawn
+    per item from the caller's rng and share, its commitments are those of the same nonces (loop of pushes or map+unzip)"""
+    P = ctx.prog
+    v = FnView.get(P, f)
+    ps = paired_sequences(P, f, v, v.cx.local(0))
+    src = ps["source"] if ps else None
+    good = ps is not None and src[0] == "agg" and (src[2] or "").endswith("Range") and \
+        dict(src[4]).get("start") == ("const", "u8", 0) and dict(src[4]).get("end") == ("arg", 1)
+    ctx.check(good, "RED", f.key, "0..num_nonces", "preprocess must produce exactly one pair per i in 0..num_nonces: %s"
+              % (fmt(src) if src else "no lock-step pair of sequences recognised"), f.loc)
+    ctx.check(ps is not None, "RED", f.key, "both-vectors-pushed-each-iteration",
+              "every iteration must add the pair's nonces and commitments to the two result sequences", f.loc)
+    fb = [s_ for s_ in subterms(ps["first"]) if s_[0] == "op" and s_[1] == "fill_bytes"] if ps else []
+    ctx.check(bool(fb) and all(site_is_per_item(f, ps["ctx"], s_[3]) and s_[2] == (("arg", 3),) for s_ in fb), "DRAW", f.key,
+              "pair-drawn-inside-the-loop",
+              "each pre-processed pair must be drawn per item from the caller's rng (a batch that draws once and clones reuses "
+              "nonces)", f.loc)
+    good = ps is not None and bool(fb) and mentions(ps["first"], arg(2)) and get_field(ps["first"], "commitments") == ps["second"]
+    ctx.check(good, "PROV", f.key, "commitments-of-the-pushed-nonces",
+              "the commitments of a pair must be those of the nonces of the same pair, derived from the caller's rng and "
+              "share", f.loc)
 
 
 def linked_nonce(commitment, nonce):
